@@ -1,5 +1,6 @@
 import ActixNet.Lemmas.SrvWake
 import ActixNet.Lemmas.SrvFuel
+import ActixNet.Lemmas.SrvProgress
 /-!
 # C03 — back-pressure releases: spare worker capacity is always used (no lost wake-up)
 
@@ -188,6 +189,23 @@ theorem no_lost_wakeup (cfg : Cfg) (ok : CfgOk cfg) (kinds : List Kind) (ops : L
     · rw [hany] at h; cases h
     · cases h
 
+/-- **Progress**: in every reachable state of a fault-free history in which some worker is marked
+available, the connection waiting first on listener `l` is dispatched by the next `accept` on `l`
+(which is what the pending readiness event of `no_lost_wakeup` triggers) — with any fuel ≥ 1, and
+whatever `accept` goes on to do afterwards.  Together with `no_lost_wakeup` (a waiting connection
+always has such an event pending while a worker has spare capacity): spare capacity is used. -/
+theorem waiting_connection_is_dispatched (cfg : Cfg) (ok : CfgOk cfg) (kinds : List Kind) (ops : List Op)
+    (hf : ∀ op ∈ ops, op.faultFree) (fuel l : Nat) (c : Conn) (b : List Conn)
+    (hany : anyAvail cfg (run cfg (init cfg kinds) ops) = true)
+    (hi : ((run cfg (init cfg kinds) ops).lst l).inject = [])
+    (hb : ((run cfg (init cfg kinds) ops).lst l).backlog = c :: b) :
+    ∃ w, (c, w) ∈ (accept cfg (fuel + 1) (run cfg (init cfg kinds) ops) l).dispatched :=
+  reachable_accept_dispatches_waiting ok kinds ops hf fuel l c b hany hi hb
+
+/-- … and nothing that was dispatched is ever un-dispatched by `accept` -/
+theorem dispatch_log_only_grows (cfg : Cfg) (fuel : Nat) (s : St) (l : Nat) :
+    ∃ r, (accept cfg fuel s l).dispatched = s.dispatched ++ r := accept_ext cfg fuel s l
+
 /-! ### Non-vacuity of `no_lost_wakeup`: a saturating history with limit 1 -/
 def demoCfg : Cfg := { limit := 1, nIdx := 1 }
 def demoOps : List Op :=
@@ -197,6 +215,10 @@ example : CfgOk demoCfg := ⟨by decide, by decide, by decide⟩
 -- second connection is dispatched by the iteration that consumes the wake-up (limit 1!)
 example : (run demoCfg (init demoCfg [.tcp]) demoOps).dispatched.length = 2 ∧
     (run demoCfg (init demoCfg [.tcp]) demoOps).fault = none := by decide
+-- the hypotheses of `waiting_connection_is_dispatched` on a real history: one worker free, one connection waiting
+example : anyAvail demoCfg (run demoCfg (init demoCfg [.tcp]) [.env (.connect 0)]) = true ∧
+    ((run demoCfg (init demoCfg [.tcp]) [.env (.connect 0)]).lst 0).backlog = [(0, 0)] ∧
+    (accept demoCfg 3 (run demoCfg (init demoCfg [.tcp]) [.env (.connect 0)]) 0).dispatched = [((0, 0), 0)] := by decide
 example : OpsOk demoCfg (init demoCfg [.tcp]) demoOps := by
   simp only [OpsOk, demoOps, and_true, true_and]
   refine ⟨?_, ?_⟩ <;> (unfold OrderOk; decide)
